@@ -151,7 +151,13 @@ def run_case(item):
     logfile = os.path.join(d, "daemon.log")
     env = core.child_env({"VP_EVENT_FILE": evfile, "PYTHONPATH": os.pathsep.join([os.path.join(core.repo_root(), "src"), core.ROOT, os.path.join(core.ROOT, "fixture_dist")])})
     env.pop("COBALD_VERIF", None)
-    proc = subprocess.Popen([sys.executable, "-m", "cobald.daemon", cfgpath, "--log-target", logfile, "--log-level", "DEBUG"], env=env, stdout=subprocess.PIPE, stderr=subprocess.STDOUT, preexec_fn=lambda: signal.signal(signal.SIGINT, signal.SIG_DFL), cwd=d)
+    # the runtime log goes to a file or - every third case - to the daemon's standard output
+    # (the interpreter's own traceback of an uncaught error goes to standard ERROR: it is kept
+    # apart and does not count as "an error on the runtime log")
+    to_stdout = seed % 3 == 1
+    errfile = os.path.join(d, "stderr.txt")
+    outfile = os.path.join(d, "stdout.txt")
+    proc = subprocess.Popen([sys.executable, "-m", "cobald.daemon", cfgpath, "--log-target", "stdout" if to_stdout else logfile, "--log-level", "DEBUG"], env=env, stdout=open(outfile, "wb"), stderr=open(errfile, "wb"), preexec_fn=lambda: signal.signal(signal.SIGINT, signal.SIG_DFL), cwd=d)
     svcs = set(case["svcs"])
 
     def read_events():
@@ -186,12 +192,21 @@ def run_case(item):
             rc = None
             break
         time.sleep(0.01)
-    out = proc.stdout.read().decode(errors="replace") if proc.stdout else ""
+    try:
+        out = open(outfile, errors="replace").read()
+    except FileNotFoundError:
+        out = ""
     evs = read_events()
     try:
         log = open(logfile).read()
     except FileNotFoundError:
         log = ""
+    if to_stdout:
+        log += out
+    try:
+        out += open(errfile, errors="replace").read()
+    except FileNotFoundError:
+        pass
     if sectionlog:
         try:
             log += open(sectionlog).read()
